@@ -109,6 +109,21 @@ PROPS = {
         'rule': 'the same generated executables with .stack sizes 0-64 KiB, symbol tables of 1-200 symbols with ___exit at any index, argument strings over printable ASCII with arbitrary runs of blanks / tabs, 0-32 words up to 200 bytes; ER0, ER1, ER2, ER5, ER7, exit address and every non-zero DRAM block (argv table, strings) compared with Model (exact) and Spec (layout recomputed from the property statement); layoutOk (regions ordered, disjoint, inside DRAM) evaluated per case. distinct non-trivial = distinct (file, argument string) pairs.',
         'assumptions': ['p_paddr = p_vaddr and PT_LOAD entries in ascending order (the statement\'s domain)'],
     },
+    'C13': {
+        'lean': ['H8.Props.C13'],
+        'gen': ['consts', 'busmap', 'dispatch', 'buscost'],
+        'runs': [{'mode': 'run', 'shards': 16, 'profile': 'release'}, {'mode': 'run', 'shards': 16, 'profile': 'checked'}],
+        'rule': 'whole Cpu::run executions in-process (channel-backed socket, captured messages): generated guest programs — straight-line blocks, counted and nested loops, JSR/BSR/RTS calls, port writes, console output through the write system call, programs that reprogram the bus controller, programs that must fail (unimplemented opcode, unmapped access), the 8-bit timer counting / interrupting across the run — with loop counts tuned by dry runs so that the total lands just below, exactly on (the last instruction crosses) and beyond the 1st-3rd multiple of 2,000,000; final total, sync message sequence, registers, PC, memory, messages, timer counter compared with the Model (exact) and with the Spec run (instruction by instruction, charged = 3 x bus-cycle cost, timer advanced one state at a time); selected cases are run twice, the second time with 24 spinning host threads, and must be identical. Run in the release profile and with overflow checks.',
+        'assumptions': ['wall-clock pacing (spin_sleep) is not modelled: it reads and writes no emulator state; its independence is checked by the reruns under host load',
+                        'the factor 3 ("temporary speed adjustment") is taken as part of the amount charged'],
+    },
+    'C18': {
+        'lean': ['H8.Props.C18'],
+        'gen': ['consts', 'busmap', 'dispatch', 'buscost'],
+        'runs': [{'mode': 'run', 'shards': 16}],
+        'rule': 'control-line sequences over a grammar (well-formed cmd/u8/ioport lines incl. upper-case hex, leading +, leading zeros, unmapped addresses; malformed: wrong field counts, empty fields, bad hex, overflow, signs, blanks, prefixes, unknown kinds, non-ASCII, empty line), every sequence under four partitions into polling batches (all before one poll, one per poll, two random partitions with empty polls) fed to the real Cpu::run through a channel-backed Socket with a planned batch size per poll; final memory, pin levels, pause/stop outcome compared with the Model (same partition, exact) and with the Spec (meaning of the lines in arrival order, independent of the partition). TCP cases: a real Socket::connect over loopback with wait-start, lines written in random chunks, guest programs emitting bursts of >= 70 port messages and console text with newlines / backslashes / multi-byte UTF-8; the bytes received are unframed and must equal the captured messages in order.',
+        'assumptions': ['u8 lines aimed at peripheral registers or at the running code are compared with the Model only', 'in TCP cases every line precedes cmd:start (the guest is held), so the arbitrary network batching cannot interleave with execution'],
+    },
     'C14': {
         'lean': ['H8.Props.C14'],
         'gen': ['consts', 'busmap', 'dispatch', 'buscost'],
@@ -119,8 +134,9 @@ PROPS = {
     'C15': {
         'lean': ['H8.Props.C15'],
         'gen': ['consts', 'busmap', 'dispatch', 'buscost'],
-        'runs': [{'mode': 'step', 'shards': 16, 'profile': 'release'}, {'mode': 'step', 'shards': 16, 'profile': 'checked'}],
-        'rule': 'every first instruction word (quick: every second) x adversarial register files (0, 1, 0xFFFFFFFF, region edges, odd values, 2^24, 2^31) x random CCR x reset/random bus-controller settings, executed from the last bytes of every mapped region and from ordinary code addresses, 1-5 instructions; every valid form with half-adversarial registers; system calls with adversarial argument blocks; run in the release profile AND in release+overflow-checks+debug-assertions under catch_unwind. Outcome class ok/err/panic compared with the Model; any panic is a violation unless it is the modelled fetch panic. distinct non-trivial = distinct (Spec class, form, outcome) triples.',
+        'runs': [{'mode': 'step', 'shards': 16, 'profile': 'release'}, {'mode': 'step', 'shards': 16, 'profile': 'checked'},
+                 {'mode': 'run', 'shards': 16, 'profile': 'checked'}],
+        'rule': '(step mode now also programs the 8-bit timer registers with every byte value through every store form and runs the module update of the run loop after each instruction; run mode: the whole Cpu::run loop in the overflow-checking build on the C13 programs and on control-line sequences over the fuzzing grammar of C18 incl. very long and garbage lines) every first instruction word (quick: every second) x adversarial register files (0, 1, 0xFFFFFFFF, region edges, odd values, 2^24, 2^31) x random CCR x reset/random bus-controller settings, executed from the last bytes of every mapped region and from ordinary code addresses, 1-5 instructions; every valid form with half-adversarial registers; system calls with adversarial argument blocks; run in the release profile AND in release+overflow-checks+debug-assertions under catch_unwind. Outcome class ok/err/panic compared with the Model; any panic is a violation unless it is the modelled fetch panic. distinct non-trivial = distinct (Spec class, form, outcome) triples.',
         'assumptions': ['aborts that are not Rust panics (allocation failure, stack overflow, panics inside dependencies) are only observable by the harness, not by a theorem', "control-channel lines are fuzzed in C18's run-loop check (same never-panic oracle)"],
     },
     'C16': {
